@@ -1,4 +1,5 @@
 import ScriggoV.Basic.Kind
+import ScriggoV.Basic.Utf8
 /-! Go's fixed-width integer operators that have no one-to-one `BitVec` primitive, and the
 representation of integer values in the VM's `int64` registers. Core Lean only.
 
@@ -30,6 +31,11 @@ def goShrU {w v : Nat} (x : BitVec w) (n : BitVec v) : BitVec w :=
 /-- Go `x >> n` for signed `x` (arithmetic shift): all sign bits once `n ≥ w` -/
 def goShrS {w v : Nat} (x : BitVec w) (n : BitVec v) : BitVec w :=
   if w ≤ n.toNat then (if x.msb then BitVec.allOnes w else 0#w) else x.sshiftRight n.toNat
+
+/-- Go `string(r)` for a rune `r` (an `int32`): the UTF-8 encoding of the code point, and
+"\uFFFD" for an invalid one (negative, surrogate half, above `unicode.MaxRune`) -/
+def goStringOfRune (r : BitVec 32) : Bytes :=
+  if r.toInt < 0 then Utf8.encodeRune Utf8.runeError else Utf8.encodeRune r.toInt.toNat
 
 /-- the canonical register content for the low `k.bits` bits of `v`: their sign extension
 (signed kinds) or zero extension (unsigned kinds) to 64 bits -/
